@@ -99,6 +99,19 @@ def malformation(ast):
     return None
 
 
+def detail(ast, reason):
+    """Malformation class plus the trigger predicate that separates mechanisms inside the class."""
+    if reason == "colon-in-output":
+        first = any(a is None for a in ast["outs"][0][1])
+        return reason + ("/in-first-output" if first else "/only-in-later-output")
+    if reason == "outputs-differ":
+        a, b = ast["outs"][0][1], ast["outs"][1][1]
+        if len(a) != len(b):
+            return reason + "/rank"
+        return reason + ("/order" if sorted(map(str, a)) == sorted(map(str, b)) else "/names")
+    return reason
+
+
 def in_domain(ast):
     """Within the generator's domain: no repeated index inside an array, no repeated array name, rank >= 1."""
     names = [n for n, _ in ast["ins"] + ast["outs"]]
@@ -173,7 +186,7 @@ def classify(s):
         return ("other", str(e))
     bad = malformation(ast)
     if bad:
-        return ("malformed", bad)
+        return ("malformed", detail(ast, bad))
     if not in_domain(ast):
         return ("other", "repeated-name-or-index")
     return ("well", ast)
@@ -478,8 +491,14 @@ def mutate_text(rng, ast, base):
                      "char-delete", "char-insert", "char-replace", "swap-adjacent", "arrow", "wrap",
                      "drop-bracket", "splice-word", "char-delete", "char-insert"])
     arrays = ast["ins"] + ast["outs"]
+    if op == "arrow" and "->" not in base:
+        op = "char-insert"
+    if op in ("space-before-bracket", "newline-in-brackets", "drop-bracket") and ("[" not in base or "]" not in base):
+        op = "char-insert"
     if op == "bad-array-name":
         n, _ = rng.choice(arrays)
+        if n + "[" not in base:
+            return "char-delete", base[1:]
         t = rng.choice(BAD_NAME_TEMPLATES)
         new = t.format(n=n.split(".")[-1], m="y9")
         i = base.index(n + "[")
@@ -514,8 +533,8 @@ def mutate_text(rng, ast, base):
         i = rng.randrange(len(base))
         return op, base[:i] + rng.choice(ALPHABET) + base[i + 1:]
     if op == "swap-adjacent":
-        i = rng.randrange(len(base) - 1)
-        return op, base[:i] + base[i + 1] + base[i] + base[i + 2:]
+        i = rng.randrange(max(1, len(base) - 1))
+        return op, base[:i] + base[i + 1:i + 2] + base[i] + base[i + 2:]
     if op == "arrow":
         i = base.index("->")
         return op, base[:i] + rng.choice(ARROWS) + base[i + 2:]
